@@ -976,3 +976,63 @@ Proof.
   eexists. split; [vm_compute; reflexivity|]. split; [reflexivity|]. split; [vm_compute; reflexivity|].
   vm_compute. repeat split; try lia; discriminate.
 Qed.
+
+(** * One limiter per key *)
+From CM Require Import Lib.Str.
+
+Lemma klookup_cons_other : forall key k l m, key <> k -> klookup key ((k, l) :: m) = klookup key m.
+Proof.
+  intros key k l m H. cbn [klookup]. destruct (str_eqb key k) eqn:E; [apply str_eqb_eq in E; contradiction|reflexivity].
+Qed.
+
+Lemma klookup_cons_same : forall key l m, klookup key ((key, l) :: m) = Some l.
+Proof. intros key l m. cbn [klookup]. replace (str_eqb key key) with true by (symmetry; apply str_eqb_eq; reflexivity). reflexivity. Qed.
+
+Lemma krun_atomic_inv : forall ls s s' evs, krun kstep_atomic s ls = Some (s', evs) ->
+  (forall k l, klookup k (kmap s) = Some l -> klookup k (kmap s') = Some l) /\
+  (forall k l, In (k, l) evs -> klookup k (kmap s') = Some l).
+Proof.
+  induction ls as [|lb ls IH]; intros s s' evs H.
+  - cbn in H. injection H as <- <-. split; [auto|intros k l []].
+  - cbn [krun] in H. destruct (kstep_atomic s lb) as [[s1 ev]|] eqn:E; [|discriminate].
+    destruct (krun kstep_atomic s1 ls) as [[s2 evs2]|] eqn:R; [|discriminate]. injection H as <- <-.
+    destruct (IH _ _ _ R) as [I1 I2].
+    destruct lb as [tid key| |]; try discriminate. cbn [kstep_atomic] in E.
+    destruct (klookup key (kmap s)) as [lim|] eqn:L; injection E as <- <-.
+    + split; [exact I1|]. intros k l [Q|Q]; [injection Q as <- <-; apply I1; exact L|apply I2; exact Q].
+    + split.
+      * intros k l Hk. apply I1. cbn [kmap]. rewrite klookup_cons_other; [exact Hk|]. intros ->. congruence.
+      * intros k l [Q|Q]; [injection Q as <- <-; apply I1; cbn [kmap]; apply klookup_cons_same|apply I2; exact Q].
+Qed.
+
+(** For every interleaving of any number of callers: all callers of one key are handed the
+    same limiter (at most one limiter per key is ever in use), because the look-up and the
+    insertion are one critical section. *)
+Theorem one_limiter_per_key : forall ls s evs, krun kstep_atomic kinit ls = Some (s, evs) ->
+  forall k l1 l2, In (k, l1) evs -> In (k, l2) evs -> l1 = l2.
+Proof.
+  intros ls s evs H k l1 l2 H1 H2. destruct (krun_atomic_inv ls kinit s evs H) as [_ I].
+  pose proof (I k l1 H1) as Q1. pose proof (I k l2 H2) as Q2. congruence.
+Qed.
+
+(** every caller is served, whatever the interleaving *)
+Theorem every_throttle_gets_a_limiter : forall ls s, (forall l, In l ls -> exists t k, l = KThrottle t k) ->
+  exists s' evs, krun kstep_atomic s ls = Some (s', evs) /\ length evs = length ls.
+Proof.
+  induction ls as [|lb ls IH]; intros s H; [exists s, []; split; reflexivity|].
+  destruct (H lb (or_introl eq_refl)) as (t & k & ->).
+  assert (H' : forall l, In l ls -> exists t k, l = KThrottle t k) by (intros l Hl; apply H; right; exact Hl).
+  cbn [krun kstep_atomic]. destruct (klookup k (kmap s)) as [lim|].
+  - destruct (IH s H') as (s' & evs & R & Hl). rewrite R. eexists. eexists. split; [reflexivity|]. cbn [length]. lia.
+  - destruct (IH (KSt ((k, knext s) :: kmap s) (S (knext s)) (kpend s)) H') as (s' & evs & R & Hl).
+    rewrite R. eexists. eexists. split; [reflexivity|]. cbn [length]. lia.
+Qed.
+
+(** the split variant: two callers that both miss each create a limiter of their own *)
+Theorem split_lookup_insert_two_limiters_refuted :
+  exists ls s evs k l1 l2, krun kstep_split kinit ls = Some (s, evs) /\
+    In (k, l1) evs /\ In (k, l2) evs /\ l1 <> l2.
+Proof.
+  exists [KLookup 1 [97%N]; KLookup 2 [97%N]; KInsert 1; KInsert 2]. eexists. eexists. exists [97%N], 0%nat, 1%nat.
+  split; [vm_compute; reflexivity|]. split; [left; reflexivity|]. split; [right; left; reflexivity|discriminate].
+Qed.
